@@ -48,11 +48,12 @@ impl Prop for C16 {
     fn strategy(_tier: Tier, _shard: u32) -> BoxedStrategy<Case> {
         (
             prop_oneof![
-                8 => proptest::collection::vec(select(UNITS), 0..=40).prop_map(|v| v.concat()),
+                16 => proptest::collection::vec(select(UNITS), 0..=40).prop_map(|v| v.concat()),
+                1 => proptest::collection::vec(select(UNITS), 41..=300).prop_map(|v| v.concat()),
                 1 => gen::text(12),
             ],
-            prop_oneof![12 => 0usize..=24, 1 => Just(1usize << 20)],
-            0usize..=8,
+            prop_oneof![24 => 0usize..=24, 2 => Just(1usize << 20), 1 => 25usize..=200],
+            prop_oneof![16 => 0usize..=8, 1 => 9usize..=60],
             prop_oneof![4 => Just(0u8), 4 => Just(1u8), 1 => Just(2u8)],
             any::<bool>(),
         )
